@@ -40,6 +40,7 @@ type c14Gate struct {
 	fresh  int
 	// diagnostics
 	toRejected int
+	refused    int
 }
 
 var c14SettleTimeout = 40 * time.Second
@@ -211,6 +212,13 @@ func (g *c14Gate) respond(ev c14Net) {
 		}
 	}
 	w.deliver("good", r.peer, r.idx)
+	if before >= 0 && !q.Has(r.idx) {
+		// The queue refused the response (a tree in which chunks of rejected senders are not accepted). The fetcher
+		// now waits for its retry ticker (ChunkRequestTimeout, one hour here) before asking someone else; that retry
+		// is emulated by the arrival of the same chunk from the current legitimate sender.
+		g.refused++
+		w.deliver("good", w.defaultPeer(), r.idx)
+	}
 	g.settle()
 }
 
@@ -258,7 +266,7 @@ func c14RunFetch(tmp string, c c14Case) *c14Result {
 		switch st.kind {
 		case "done":
 			res := w.result()
-			res.Extra = map[string]int{"requests_to_rejected_peer": g.toRejected}
+			res.Extra = map[string]int{"requests_to_rejected_peer": g.toRejected, "responses_refused": g.refused}
 			return res
 		case "timeout":
 			if w.inconclusive == "" {
@@ -391,6 +399,9 @@ func TestVerifC14Fetch(t *testing.T) {
 		}
 		if n := res.Extra["requests_to_rejected_peer"]; n > 0 {
 			r.Add("diag_request_sent_to_rejected_peer", int64(n))
+		}
+		if n := res.Extra["responses_refused"]; n > 0 {
+			r.Add("responses_refused_by_queue_retry_emulated", int64(n))
 		}
 		sig := c14JournalHash(res.Journal)
 		if _, dup := seen[sig]; !dup && len(c.Choices) > 0 {
